@@ -38,7 +38,20 @@ var assumeW3 = []string{
 	"a clean batch is evidence, not proof: inputs and histories are sampled from a seeded stream",
 }
 
+var assumePolicy = map[string]string{
+	"C18": "world policy (pkg/policy PolicyManager): hostile but API-valid objects at its typed surfaces - NetworkPolicies with rules of a direction that spec.policyTypes switches off, nil/empty selectors and peer lists, every selector operator, ports without number and/or protocol, named ports, endPort, SCTP, more than 15 ports per protocol, ipBlocks with exceptions outside/equal to/duplicated in the block, host bits set, 0.0.0.0/0, IPv6 blocks, 10-30 rules per policy, 253-character dotted names, label values of every legal shape; pods without address, IPv6-only, dual-stack, hostNetwork, finished, unscheduled, terminating, sharing an address; namespaces without labels; deletes delivered as cache.DeletedFinalStateUnknown after a relist; update events with identical objects; direct SyncPodChains / SyncPodIPInIPSet(add,delete) / DeletePod calls with such pods; mixed with the ordinary C15 workload (prior kernel state, full synchronisations); handlers run one at a time, no injected fault. Oracles: panic with a galaxy frame (C18.panic, key panic@<innermost galaxy function>), task ending with a held lock (C18.lock-leak), tasks blocked forever / the ordinary follow-up full synchronisation at the end unable to complete (C18.wedged), harness watchdog for a task that never parks. Values the real tools refuse (non-IPv4 address, non-numeric port name, >15 multiport slots, comment >255 characters, zero prefix / IPv6 member in an inet hash set) are refused by the simulated kernel too (exit 2 / 1); they are galaxy's to survive, not verdicts",
+	"C19": "world policy (pkg/policy PolicyManager, -race build): one shared instance; the pod informer and the NetworkPolicy informer each run one handler at a time but concurrently with each other, with the periodic Run (one pass at a time, first pass racing the initial ADDED notifications) and with up to 3 concurrent CNI-path calls (SyncPodChains + SyncPodIPInIPSet), while API objects keep changing; no fault. The world owns no lock; the task-side iptables stub holds exactly the mutex the real runner holds (check-then-append, restore), the ipset stub none (as the real runner), and mirrors the runners' writes into caller-owned structs (CreateSet fills defaults into the *ipset.IPSet it is given), so races on those are galaxy's",
+}
+
 func init() {
+	// C18 and C19 are registered by specs.go (world ipam) and extended by specs_daemon.go; this world serves them too
+	for _, id := range []string{"C18", "C19"} {
+		if sp, ok := specs[id]; ok {
+			sp.More = append(sp.More, "policy")
+			sp.Assume = append(sp.Assume, assumePolicy[id])
+			specs[id] = sp
+		}
+	}
 	specs["C15"] = propSpec{World: "policy", Level: "exploration", Quick: 25, Thorough: 600, Rule: ruleW3C15, Assume: assumeW3}
 	specs["C16"] = propSpec{World: "policy", Level: "exploration", Quick: 25, Thorough: 600, Rule: ruleW3C16, Assume: assumeW3}
 	realVsStub["policy"] = map[string]string{
